@@ -194,6 +194,7 @@ struct Ctx {
 	std::vector<std::string> lines;  // kept only when verbose
 	int cur_step = -1;
 	uint64_t sigacc = 0;
+	std::vector<uint64_t> sigs; // merged into stats by exec_plan when the run is non-trivial
 
 	void logf(const char *fmt, ...) __attribute__((format(printf, 2, 3)));
 	// state signature element (cell, event kind, faults, verdict class...)
